@@ -34,6 +34,11 @@ after removed elements, preferably with the name of the element removed last.  A
 instruction (a truncated mail body): HTML tokenisation makes everything up to the end of input the
 comment, so its tokens are class r and nothing visible follows.
 
+Removed content may itself spell a whole document (kinds document-write, full-document, page-skeleton:
+``<html><body>..</body></html>`` as script text, iframe/object fallback, commented-out page): to every
+tokeniser these tags are text of, or ignored inside, the removed construct; a carrier that locates the
+document in raw bytes must not take them for the document's own.
+
 Order and separation ("takes nothing else with it"): every construct is bracketed by the BEGIN/END
 markers, ``render(strip=True)`` gives the same document with every removable construct deleted.  The
 check extracts that reference document too and demands that the visible tokens of the real document
@@ -90,9 +95,9 @@ TAIL_KINDS = ("comment", "comment-tight", "comment-tags", "comment-gt", "comment
               "decl", "doctype-like", "pi")
 TRUNC_KINDS = ("after-document", "closers-cut", "mid-paragraph", "mid-div")
 
-RAW_KINDS = ("text", "pseudo-markup", "pseudo-endtag", "pseudo-removable", "comment-wrapped", "cdata-wrapped", "ltgt", "multiline", "empty")
+RAW_KINDS = ("text", "pseudo-markup", "pseudo-endtag", "pseudo-removable", "comment-wrapped", "cdata-wrapped", "ltgt", "multiline", "empty", "document-write")
 NORMAL_KINDS = ("text", "balanced", "void-selfclosed", "nested-same", "nested-other", "nested-rawtext", "nested-embed",
-                "misnested-inner", "comment", "cdata", "attr-gt", "selfclosed-nonvoid", "entities", "empty")
+                "misnested-inner", "comment", "cdata", "attr-gt", "selfclosed-nonvoid", "entities", "empty", "full-document")
 RISKY_KINDS = {"void-child-in-removed-element": "void-bare", "stray-endtag-in-removed-element": "stray-endtag",
                "unclosed-inner-tag-in-removed-element": "unclosed-inner",
                "stray-removable-endtag-in-removed-element": "stray-removable-endtag",
@@ -102,7 +107,7 @@ _RISKY_ONLY_KINDS = ("void-bare", "stray-endtag", "unclosed-inner", "embed-bare"
 ORPHAN_NAMES = NORMAL + RAWTEXT      # an end tag of a removable element with no element open: between / after / before removed elements
 EMBED_KINDS = ("embed-selfclosed", "embed-paired")
 COMMENT_KINDS = ("plain", "tight", "multiline", "with-tags", "with-gt", "with-dashes", "with-removable", "conditional",
-                 "empty", "with-quotes", "pi", "decl", "doctype-like", "if-plain-close", "xml-island", "endif-lookalike")
+                 "empty", "with-quotes", "pi", "decl", "doctype-like", "if-plain-close", "xml-island", "endif-lookalike", "page-skeleton")
 ATTR_KINDS = ("none", "plain", "gt-in-value", "quotes", "unquoted", "endtag-in-value", "newline-in-tag")
 CASE_KINDS = ("lower", "upper", "mixed")
 CLOSE_KINDS = ("plain", "ws", "nl")
@@ -290,6 +295,9 @@ def _raw_content(b: _B, name: str, kind: str, avoid: tuple = ()) -> list:
         return [f'\n  function f() {{\n    return "{r()}";\n  }}\n\n  // {r()}\n' if js else f'\n  .m {{\n    n: "{r()}";\n  }}\n\n  /* {r()} */\n']
     if kind == "empty":
         return [""]
+    if kind == "document-write":        # a whole document, with its closing tags, as text of the removed element
+        return [f'\nfunction help() {{\n  var w = window.open("", "h");\n  w.document.write("<html><head></head><body><p>{r()}</p></body></html>");\n  w.document.close();\n}}\n// {r()}\n'
+                if js else f'\n/* <html><body> {r()} </body></html> */\n.p {{ q: "{r()}" }}\n/* </BODY></HTML> */\n']
     raise ValueError(kind)
 
 
@@ -350,6 +358,8 @@ def _normal_content(b: _B, name: str, kind: str, variant: int = 0) -> list:
         return [f"&lt;/{name}&gt; {r()} &amp; &lt;p&gt; {r()} &#60;/{name}&#62; {r()}"]
     if kind == "empty":
         return [""]
+    if kind == "full-document":         # fallback content that is a complete page: <html>, <body> and their end tags
+        return [f'<html><body>\n<p>{r()}</p>\n</body></html>\n{r()}' if variant % 2 else f'<HTML><BODY><div>{r()}</div></BODY></HTML> {r()}']
     raise ValueError(kind)
 
 
@@ -385,6 +395,8 @@ def _comment(b: _B, kind: str) -> list:
         return [f"<!--[if gte mso 9]> {r()} <b>{r()}</b> -->"]
     if kind == "xml-island":
         return [f"<!--[if gte mso 9]><xml>\n <o:OfficeDocumentSettings><o:AllowPNG/><o:PixelsPerInch>{r()}</o:PixelsPerInch></o:OfficeDocumentSettings>\n</xml><![endif]-->"]
+    if kind == "page-skeleton":
+        return [f"<!--\n<html>\n<body>\n<p>{r()}</p>\n</body>\n</html>\n{r()} -->"]
     if kind == "endif-lookalike":
         return [f"<!-- {r()} <![endif] {r()} [if mso]> {r()} -->"]
     raise ValueError(kind)
@@ -804,7 +816,14 @@ def render_mhtml(doc: str, params: dict) -> bytes:
     msg["Subject"] = "page"
     msg["Date"] = "Thu, 01 Jan 2026 00:00:00 -0000"
     msg["MIME-Version"] = "1.0"
-    msg.set_content(doc, subtype="html", charset="utf-8", cte=params.get("cte", "quoted-printable"))
+    root = params.get("root", "text/html")
+    if root == "text/html":
+        msg.set_content(doc, subtype="html", charset="utf-8", cte=params.get("cte", "quoted-printable"))
+    else:
+        # an archived XHTML page: the root part is not labelled text/html and travels unencoded (the library then looks for
+        # the document in the raw bytes of the archive, so the caller passes a complete <html>..</html> document)
+        maintype, subtype = root.split("/")
+        msg.set_content(doc.encode("utf-8"), maintype=maintype, subtype=subtype, cte="8bit", params={"charset": "utf-8"})
     msg["Content-Location"] = "http://example.org/page.html"
     if params.get("related", True):
         png = (b"\x89PNG\r\n\x1a\n\x00\x00\x00\rIHDR\x00\x00\x00\x01\x00\x00\x00\x01\x08\x06\x00\x00\x00\x1f\x15\xc4\x89"
